@@ -1,16 +1,16 @@
 CONSTANTS
     N = 1
     Pat = "distinct"
-    ServedU = "atomic"
+    ServedU = "honest"
     DirU = "atomic"
     AllDirOptions = {0, 1, 2, 3}
     PerNameOnSuccess = TRUE
     ListNamesCanonical = TRUE
     FindPrefersDirectChild = TRUE
-    NonRegularRefused = TRUE
+    NonRegularRefused = FALSE
     ExcuseNonRegular = FALSE
     ExcuseMisplaced = FALSE
     ExcuseDecoy = FALSE
 SPECIFICATION Spec
-INVARIANTS DigestsSound VerifySound
+INVARIANTS VerifySound
 CHECK_DEADLOCK FALSE
